@@ -49,12 +49,12 @@ import (
 // plan
 
 type wsOp struct {
-	Ping bool
-	Bin  bool
-	Len  int
-	Seed uint32
-	Via  int // 0 Message.Send, 1 custom Codec.Send, 2 Conn.Write
-	Recv int // how the peer receives it: 0 custom codec (type visible), 1 Message into *[]byte, 2 Message into *string, 3 Conn.Read in chunks
+	Ping  bool
+	Bin   bool
+	Len   int
+	Seed  uint32
+	Via   int // 0 Message.Send, 1 custom Codec.Send, 2 Conn.Write
+	Recv  int // how the peer receives it: 0 custom codec (type visible), 1 Message into *[]byte, 2 Message into *string, 3 Conn.Read in chunks
 	Chunk int // buffer size for Recv == 3
 }
 
